@@ -1,3 +1,48 @@
+"""C16 - danger space is the contiguous stretch of trajectory within the target."""
 LEVEL = 'proof'
-EXPLANATION = 'C16'
-EXTRA = []
+EXPLANATION = ('HitResult.danger_space under contract for any trajectory of any length (quantified clauses, two scan loops with '
+               'invariants): the target row is the first row at or beyond the requested range (index_at_distance contract); the '
+               'begin / end rows bracket it; every row strictly between has |drop - target drop| <= half the target height '
+               '(two-sided - the one-sided comparison repaired in f0de995 failed exactly this invariant); each bound is the '
+               'first / last row or a row at least half a height away; the target height is passed through; asking beyond the '
+               'trajectory raises ArithmeticError, without extra data AttributeError. Monotonicity in the target height is a '
+               'lemma over the two clauses (a larger height keeps every interior row interior).')
+NOT_DECIDED = ['the interpolated end points inside DangerSpace (begin/end are rows; the property speaks of rows)']
+EXTRA = ['lemma_monotone_in_target_height']
+
+
+def lemma_monotone_in_target_height(tier, seed):
+    """over the two bracket clauses of danger_space (begin-/end-brackets-...): a larger target height gives a begin index
+    that is not later and an end index that is not earlier, for any trajectory (drop an uninterpreted function of the row)"""
+    import time
+    import z3
+    from pyvc.scan import result, obl
+    t0 = time.time()
+    D = z3.Function('drop', z3.IntSort(), z3.RealSort())
+    b, b2, e, e2, ci, n, k = z3.Ints('b b2 e e2 ci n k')
+    h, h2 = z3.Reals('h h2')
+
+    def dev(i):
+        d = D(i) - D(ci)
+        return z3.If(d >= 0, d, -d)
+
+    def post_b(b, h):
+        return z3.And(0 <= b, b <= ci, z3.ForAll([k], z3.Implies(z3.And(b + 1 <= k, k < ci), dev(k) < h / 2)),
+                      z3.Or(b == 0, dev(b) >= h / 2))
+
+    def post_e(e, h):
+        return z3.And(ci <= e, e <= n - 1, z3.ForAll([k], z3.Implies(z3.And(ci + 1 <= k, k < e), dev(k) < h / 2)),
+                      z3.Or(e == n - 1, dev(e) >= h / 2))
+    obls = []
+    for name, hyp, goal in (('begin-not-later', [post_b(b, h), post_b(b2, h2)], b2 <= b),
+                            ('end-not-earlier', [post_e(e, h), post_e(e2, h2)], e2 >= e)):
+        s = z3.Solver()
+        s.set('timeout', 20000)
+        s.add(0 <= ci, ci < n, 0 < h, h <= h2, *hyp, z3.Not(goal))      # a zero-height target is degenerate
+        r = s.check()
+        o = obl(f'lemma::larger-target-height-{name}', r == z3.unsat,
+                f'from the bracket clauses for heights 0 < h <= h2: {goal} ({r})', kind='lemma')
+        o['backend'] = 'z3'
+        o['result'] = 'unsat' if r == z3.unsat else ('unknown' if r == z3.unknown else 'sat')
+        obls.append(o)
+    return result('lemma:danger-space-monotone', obls, t0, props=('C16',))
